@@ -46,6 +46,20 @@ def self_field_of_place(v, place, self_local=1):
         wd = v.whole_defs(place["l"])
         if len(wd) == 1 and wd[0][0] == "stmt" and wd[0][3]["rv"]["k"] == "ref":
             return self_field_of_place(v, wd[0][3]["rv"]["place"], self_local)
+    # through temporaries such as `match (other.x, &self.x)`: resolve the place symbolically
+    t = v.origin_place(place)
+    n = 0
+    while isinstance(t, tuple) and t and t[0] in ("ref", "deref") and n < 6:
+        t = t[1]
+        n += 1
+    if isinstance(t, tuple) and t and t[0] == "field" and t[3] and not t[3].isdigit():
+        base = t[1]
+        n = 0
+        while isinstance(base, tuple) and base and base[0] in ("ref", "deref") and n < 6:
+            base = base[1]
+            n += 1
+        if base == ("param", self_local):
+            return t[3]
     return None
 
 
